@@ -1274,4 +1274,445 @@ theorem inert_wf : (ks : List Tmpl) → ∀ (anc : List Str), wfTs true anc ks =
       obtain ⟨f1, f2, f3, f4, _⟩ := title_facts
       exact Or.inr ⟨by simp, by simpa [f3] using title_inertKids htk hik⟩
 
+
+/-! ### the view a template expands to: `ui = false` the builder path alone, `ui = true` with the inert
+subtrees replaced by their inert views -/
+
+mutual
+def viewOf (ui top : Bool) : Tmpl → List Node
+  | .text s => [.text s]
+  | .block s => [.text s]
+  | .elem tag attrs kids =>
+    if ui && (!top && isInert (.elem tag attrs kids)) then [inertView (.elem tag attrs kids)]
+    else [.elem tag (builderAttrs attrs) (if macroIsVoid tag then [] else viewKids ui false kids)]
+  | .frag kids => viewKids ui true kids
+  | .comp kids => [.elem sSection [] (viewKids ui true kids)]
+def viewKids (ui top : Bool) : List Tmpl → List Node
+  | [] => []
+  | t :: ts => viewOf ui top t ++ viewKids ui top ts
+end
+
+mutual
+theorem builderView_eq : (t : Tmpl) → ∀ top, builderView t = viewOf false top t
+  | .text s, _ => by simp [builderView, viewOf]
+  | .block s, _ => by simp [builderView, viewOf]
+  | .elem tag attrs kids, _ => by simp [builderView, viewOf, builderKids_eq kids false]
+  | .frag kids, _ => by simp [builderView, viewOf, builderKids_eq kids true]
+  | .comp kids, _ => by simp [builderView, viewOf, builderKids_eq kids true]
+theorem builderKids_eq : (ts : List Tmpl) → ∀ top, builderKids ts = viewKids false top ts
+  | [], _ => by simp [builderKids, viewKids]
+  | t :: ts, top => by simp [builderKids, viewKids, builderView_eq t top, builderKids_eq ts top]
+end
+
+mutual
+theorem wfT_mono : (t : Tmpl) → ∀ anc, wfT false anc t = true → wfT true anc t = true
+  | .text s, _, h => by simp only [wfT, Bool.and_eq_true] at h ⊢; exact ⟨h.1, by simp⟩
+  | .block s, _, h => by simp only [wfT, Bool.and_eq_true] at h ⊢; exact ⟨h.1, by simp⟩
+  | .elem tag attrs kids, anc, h => by
+    simp only [wfT, Bool.and_eq_true, Bool.or_eq_true] at h ⊢
+    obtain ⟨h1, hcase⟩ := h
+    refine ⟨h1, ?_⟩
+    rcases hcase with ((⟨hg, hk⟩ | hv) | hr) | ht
+    · exact Or.inl (Or.inl (Or.inl ⟨hg, wfTs_mono kids _ hk⟩))
+    · exact Or.inl (Or.inl (Or.inr hv))
+    · exact Or.inl (Or.inr hr)
+    · exact Or.inr ht
+  | .frag kids, anc, h => by simp only [wfT] at h ⊢; exact wfTs_mono kids anc h
+  | .comp kids, anc, h => by
+    simp only [wfT, Bool.and_eq_true] at h ⊢; exact ⟨h.1, wfTs_mono kids _ h.2⟩
+theorem wfTs_mono : (ts : List Tmpl) → ∀ anc, wfTs false anc ts = true → wfTs true anc ts = true
+  | [], _, _ => by simp [wfTs]
+  | t :: ts, anc, h => by
+    simp only [wfTs, Bool.and_eq_true] at h ⊢
+    exact ⟨wfT_mono t anc h.1, wfTs_mono ts anc h.2⟩
+end
+
+theorem wfKids_append (anc : List Str) (A B : List Node) :
+    wfKids anc (A ++ B) = (wfKids anc A && wfKids anc B) := by
+  induction A with
+  | nil => simp [wfKids]
+  | cons a A ih => simp [wfKids, ih, Bool.and_assoc]
+
+theorem structKids_append (A B : List Node) : ∀ pos, ∃ pos', structKids pos (A ++ B) = structKids pos A ++ structKids pos' B := by
+  induction A with
+  | nil => intro pos; exact ⟨pos, by simp [structKids]⟩
+  | cons a A ih =>
+    intro pos
+    obtain ⟨p, hp⟩ := ih (posAfter a)
+    exact ⟨p, by simp [structKids, hp]⟩
+
+theorem inertView_single (tag : Str) (attrs : List TAttr) (kids : List Tmpl) :
+    inertKidsView [.elem tag attrs kids] = [inertView (.elem tag attrs kids)] := by
+  simp [inertKidsView, inertView]
+
+theorem inertNode_of_isInert {tag : Str} {attrs : List TAttr} {kids : List Tmpl}
+    (h : isInert (.elem tag attrs kids) = true) : inertKids [.elem tag attrs kids] = true := by
+  simp only [isInert, Bool.and_eq_true] at h
+  simp [inertKids, h.2]
+
+theorem genericOK_section : genericOK sSection = true := by decide
+theorem attrsOK_nil : attrsOK [] = true := by decide
+
+mutual
+/-- **well-formedness**: both views of a well-formed template are inside C06's proved class -/
+theorem wf_view : (t : Tmpl) → ∀ (ui top : Bool) (anc : List Str), wfT false anc t = true →
+    wfKids anc (viewOf ui top t) = true
+  | .text s, _, _, _, h => by
+    simp only [wfT, Bool.and_eq_true] at h
+    simp [viewOf, wfKids, wfNode, h.1]
+  | .block s, _, _, _, h => by
+    simp only [wfT, Bool.and_eq_true] at h
+    simp [viewOf, wfKids, wfNode, h.1]
+  | .elem tag attrs kids, ui, top, anc, h => by
+    by_cases hb : (ui && (!top && isInert (.elem tag attrs kids))) = true
+    · have hi : isInert (.elem tag attrs kids) = true := by
+        simp only [Bool.and_eq_true] at hb; exact hb.2.2
+      have hw : wfTs true anc [.elem tag attrs kids] = true := by
+        simp only [wfTs, Bool.and_true]; exact wfT_mono _ anc h
+      have := inert_wf [.elem tag attrs kids] anc hw (inertNode_of_isInert hi)
+      rw [inertView_single] at this
+      simpa [viewOf, hb] using this
+    · simp only [wfT, Bool.and_eq_true, Bool.or_eq_true] at h
+      obtain ⟨⟨hattrs, hnest⟩, hcase⟩ := h
+      have hA := attrsOK_builder attrs hattrs
+      simp only [viewOf, hb, if_false, wfKids, wfNode, Bool.and_eq_true, Bool.or_eq_true, hA, hnest, true_and, and_true,
+        Bool.false_eq_true]
+      rcases hcase with ((⟨hg, hkids⟩ | ⟨hv, hempty⟩) | ⟨hraw, hempty⟩) | ⟨htitle, htk⟩
+      · obtain ⟨f1, f2, f3, f4⟩ := generic_facts hg
+        have ihk := wf_viewKids kids ui false (tag :: anc) hkids
+        exact Or.inl (Or.inl (Or.inl ⟨hg, by simpa [f3] using ihk⟩))
+      · obtain ⟨f1, f2⟩ := void_facts hv
+        exact Or.inl (Or.inl (Or.inr ⟨hv, by simp [f2]⟩))
+      · have hk : kids = [] := by cases kids <;> simp_all
+        subst hk
+        exact Or.inl (Or.inr ⟨hraw, by simp [viewKids]⟩)
+      · simp only [decide_eq_true_eq] at htitle
+        subst htitle
+        obtain ⟨f1, f2, f3, f4, _⟩ := title_facts
+        obtain ⟨s, hk, hc, hne⟩ := titleKidsT_cases htk
+        refine Or.inr ⟨by simp, ?_⟩
+        rcases hk with rfl | rfl <;> simp [f3, viewKids, viewOf, titleKids, hc]
+  | .frag kids, ui, top, anc, h => by
+    simp only [wfT] at h
+    simpa [viewOf] using wf_viewKids kids ui true anc h
+  | .comp kids, ui, top, anc, h => by
+    simp only [wfT, Bool.and_eq_true] at h
+    have ihk := wf_viewKids kids ui true (sSection :: anc) h.2
+    simp [viewOf, wfKids, wfNode, attrsOK_nil, h.1, genericOK_section, ihk]
+theorem wf_viewKids : (ts : List Tmpl) → ∀ (ui top : Bool) (anc : List Str), wfTs false anc ts = true →
+    wfKids anc (viewKids ui top ts) = true
+  | [], _, _, _, _ => by simp [viewKids, wfKids]
+  | t :: ts, ui, top, anc, h => by
+    simp only [wfTs, Bool.and_eq_true] at h
+    simp [viewKids, wfKids_append, wf_view t ui top anc h.1, wf_viewKids ts ui top anc h.2]
+end
+
+theorem normAttrs_nil : normAttrs (expectedAttrs []) = [] := by decide
+theorem section_facts : isVoid sSection = false ∧ escapeChildren sSection = true := by decide
+
+mutual
+/-- **meaning**: the structure of either view normalises to what the template denotes -/
+theorem struct_view : (t : Tmpl) → ∀ (ui top : Bool) (anc : List Str), wfT false anc t = true →
+    ∀ (pos : Pos) (Q : List Tree), normList (structKids pos (viewOf ui top t) ++ Q) = denK t (normList Q)
+  | .text s, _, _, _, h => by
+    intro pos Q
+    simp only [wfT, Bool.and_eq_true, Bool.false_or, bne_iff_ne, ne_eq] at h
+    by_cases hp : pos = .afterText <;>
+      simp [viewOf, structKids, structNode, h.2, hp, normList, normNode, pushNorm, denK]
+  | .block s, _, _, _, h => by
+    intro pos Q
+    simp only [wfT, Bool.and_eq_true, Bool.false_or, bne_iff_ne, ne_eq] at h
+    by_cases hp : pos = .afterText <;>
+      simp [viewOf, structKids, structNode, h.2, hp, normList, normNode, pushNorm, denK]
+  | .elem tag attrs kids, ui, top, anc, h => by
+    intro pos Q
+    by_cases hb : (ui && (!top && isInert (.elem tag attrs kids))) = true
+    · have hi : isInert (.elem tag attrs kids) = true := by
+        simp only [Bool.and_eq_true] at hb; exact hb.2.2
+      have hw : wfTs true anc [.elem tag attrs kids] = true := by
+        simp only [wfTs, Bool.and_true]; exact wfT_mono _ anc h
+      have := inert_struct [.elem tag attrs kids] anc hw (inertNode_of_isInert hi) Q
+      rw [inertView_single] at this
+      rw [struct_pos _ pos .firstChild Q]
+      simpa [viewOf, hb, denKs] using this
+    · simp only [wfT, Bool.and_eq_true, Bool.or_eq_true] at h
+      obtain ⟨⟨hattrs, hnest⟩, hcase⟩ := h
+      have hA := attrsOK_builder attrs hattrs
+      have hI : innerBuf (builderAttrs attrs) = [] := by
+        simp only [attrsOK, Bool.and_eq_true] at hA
+        exact innerBuf_nil _ hA.1
+      have hok : attrs.all tattrOK = true := by
+        simp only [tattrsOK, Bool.and_eq_true] at hattrs; exact hattrs.1.1.1
+      have hN := normAttrs_builder attrs hok
+      have key : ∀ (facts : isVoid tag = macroIsVoid tag)
+          (body : macroIsVoid tag = false →
+            normList (if escapeChildren tag = true then structKids .firstChild (viewKids ui false kids)
+                      else textTree (rawText (viewKids ui false kids))) = denKs kids []),
+          normList (structKids pos (viewOf ui top (.elem tag attrs kids)) ++ Q) =
+            denK (.elem tag attrs kids) (normList Q) := by
+        intro facts body
+        simp only [viewOf, hb, if_false, structKids, structNode, hI, if_true, List.cons_append, List.nil_append,
+          List.append_nil, normList, normNode, pushNorm, hN, denK, facts, Bool.false_eq_true]
+        cases hv : macroIsVoid tag
+        · have := body hv
+          simp only [Bool.false_eq_true, if_false] at this ⊢
+          rw [this]
+        · simp [normList]
+      rcases hcase with ((⟨hg, hkids⟩ | ⟨hv, hempty⟩) | ⟨hraw, hempty⟩) | ⟨htitle, htk⟩
+      · obtain ⟨f1, f2, f3, f4⟩ := generic_facts hg
+        have ihk := struct_viewKids kids ui false (tag :: anc) hkids .firstChild []
+        exact key (by rw [f1, f3]) (fun _ => by simpa [f2, normList] using ihk)
+      · obtain ⟨f1, f2⟩ := void_facts hv
+        exact key (by rw [f1, f2]) (fun h => by rw [f2] at h; cases h)
+      · have hk : kids = [] := by cases kids <;> simp_all
+        subst hk
+        obtain ⟨f1, f2⟩ := raw_facts hraw
+        exact key (by rw [f1, f2]) (fun _ => by
+          cases escapeChildren tag <;> simp [viewKids, structKids, rawText, textTree, normList, denKs])
+      · simp only [decide_eq_true_eq] at htitle
+        subst htitle
+        obtain ⟨f1, f2, f3, f4, _⟩ := title_facts
+        have ihk := struct_viewKids kids ui false (tTitle :: anc) (title_wfTs htk false _) .firstChild []
+        exact key (by rw [f1, f3]) (fun _ => by simpa [f2, normList] using ihk)
+  | .frag kids, ui, top, anc, h => by
+    intro pos Q
+    simp only [wfT] at h
+    simpa [viewOf, denK] using struct_viewKids kids ui true anc h pos Q
+  | .comp kids, ui, top, anc, h => by
+    intro pos Q
+    simp only [wfT, Bool.and_eq_true] at h
+    have ihk := struct_viewKids kids ui true (sSection :: anc) h.2 .firstChild []
+    obtain ⟨f1, f2⟩ := section_facts
+    have : innerBuf ([] : List Attr) = [] := rfl
+    simp only [List.append_nil, normList] at ihk
+    simp [viewOf, structKids, structNode, f1, f2, this, normList, normNode, pushNorm, normAttrs_nil, denK, ihk]
+theorem struct_viewKids : (ts : List Tmpl) → ∀ (ui top : Bool) (anc : List Str), wfTs false anc ts = true →
+    ∀ (pos : Pos) (Q : List Tree), normList (structKids pos (viewKids ui top ts) ++ Q) = denKs ts (normList Q)
+  | [], _, _, _, _ => by intro pos Q; simp [viewKids, structKids, denKs]
+  | t :: ts, ui, top, anc, h => by
+    intro pos Q
+    simp only [wfTs, Bool.and_eq_true] at h
+    obtain ⟨p, hp⟩ := structKids_append (viewOf ui top t) (viewKids ui top ts) pos
+    rw [viewKids, hp, List.append_assoc, struct_view t ui top anc h.1 pos, struct_viewKids ts ui top anc h.2 p Q]
+    simp [denKs]
+end
+
+
+/-! ### bytes: the expansion (with `InertElement`s) prints what tachys prints for the mixed view -/
+
+inductive Rel : List Exp → List Node → Prop
+  | nil : Rel [] []
+  | cons {e : Exp} {n : Node} {es : List Exp} {ns : List Node} :
+      (∀ pos, expHtml true pos e = nodeHtml true pos n) → expPosAfter e = posAfter n → Rel es ns →
+      Rel (e :: es) (n :: ns)
+
+theorem Rel.append {a : List Exp} {b : List Node} {c : List Exp} {d : List Node} (h1 : Rel a b) (h2 : Rel c d) :
+    Rel (a ++ c) (b ++ d) := by
+  induction h1 with
+  | nil => simpa using h2
+  | cons he hp _ ih => exact Rel.cons he hp ih
+
+theorem Rel.html {es : List Exp} {ns : List Node} (h : Rel es ns) :
+    ∀ pos, expKidsHtml true pos es = kidsHtml true pos ns := by
+  induction h with
+  | nil => intro pos; simp [expKidsHtml, kidsHtml]
+  | cons he hp _ ih => intro pos; simp [expKidsHtml, kidsHtml, he, hp, ih]
+
+theorem Rel.single {e : Exp} {n : Node} (he : ∀ pos, expHtml true pos e = nodeHtml true pos n)
+    (hp : expPosAfter e = posAfter n) : Rel [e] [n] := Rel.cons he hp Rel.nil
+
+mutual
+theorem rel_view : (t : Tmpl) → ∀ (top : Bool) (anc : List Str), wfT false anc t = true →
+    Rel (expand top t) (viewOf true top t)
+  | .text s, _, _, _ => by
+    simp only [expand, viewOf]
+    exact Rel.single (by intro pos; simp [expHtml, nodeHtml]) rfl
+  | .block s, _, _, _ => by
+    simp only [expand, viewOf]
+    exact Rel.single (by intro pos; simp [expHtml, nodeHtml]) rfl
+  | .elem tag attrs kids, top, anc, h => by
+    by_cases hb : (!top && isInert (.elem tag attrs kids)) = true
+    · have hi : isInert (.elem tag attrs kids) = true := by
+        simp only [Bool.and_eq_true] at hb; exact hb.2
+      have hw : wfTs true anc [.elem tag attrs kids] = true := by
+        simp only [wfTs, Bool.and_true]; exact wfT_mono _ anc h
+      have := inert_html [.elem tag attrs kids] anc hw (inertNode_of_isInert hi)
+      rw [inertView_single] at this
+      simp only [expand, viewOf, hb, if_true, Bool.true_and]
+      refine Rel.single ?_ (by simp [expPosAfter, inertView, posAfter])
+      intro pos
+      simp only [inertKidsHtml, kidsHtml, List.append_nil] at this
+      simp only [expHtml, inertHtml, this]
+      simp [inertView, nodeHtml]
+    · simp only [wfT, Bool.and_eq_true, Bool.or_eq_true] at h
+      obtain ⟨⟨hattrs, hnest⟩, hcase⟩ := h
+      have hA := attrsOK_builder attrs hattrs
+      have hI : innerBuf (builderAttrs attrs) = [] := by
+        simp only [attrsOK, Bool.and_eq_true] at hA
+        exact innerBuf_nil _ hA.1
+      have key : ∀ (body : isVoid tag = false →
+            expKidsHtml (escapeChildren tag) .firstChild (if macroIsVoid tag = true then [] else expandKids false kids) =
+              kidsHtml (escapeChildren tag) .firstChild (if macroIsVoid tag = true then [] else viewKids true false kids)),
+          Rel (expand top (.elem tag attrs kids)) (viewOf true top (.elem tag attrs kids)) := by
+        intro body
+        simp only [expand, viewOf, hb, Bool.true_and, if_false, Bool.false_eq_true]
+        refine Rel.single ?_ rfl
+        intro pos
+        simp only [expHtml, nodeHtml, hI, if_true]
+        cases hv : isVoid tag
+        · simp [body hv]
+        · simp
+      rcases hcase with ((⟨hg, hkids⟩ | ⟨hv, hempty⟩) | ⟨hraw, hempty⟩) | ⟨htitle, htk⟩
+      · obtain ⟨f1, f2, f3, f4⟩ := generic_facts hg
+        have ihk := (rel_viewKids kids false (tag :: anc) hkids).html .firstChild
+        exact key (fun _ => by simpa [f2, f3] using ihk)
+      · obtain ⟨f1, f2⟩ := void_facts hv
+        exact key (fun h => by rw [f1] at h; cases h)
+      · have hk : kids = [] := by cases kids <;> simp_all
+        subst hk
+        exact key (fun _ => by simp [expandKids, viewKids, expKidsHtml, kidsHtml])
+      · simp only [decide_eq_true_eq] at htitle
+        subst htitle
+        obtain ⟨f1, f2, f3, f4, _⟩ := title_facts
+        have ihk := (rel_viewKids kids false (tTitle :: anc) (title_wfTs htk false _)).html .firstChild
+        exact key (fun _ => by simpa [f2, f3] using ihk)
+  | .frag kids, top, anc, h => by
+    simp only [wfT] at h
+    simpa [expand, viewOf] using rel_viewKids kids true anc h
+  | .comp kids, top, anc, h => by
+    simp only [wfT, Bool.and_eq_true] at h
+    have ihk := (rel_viewKids kids true (sSection :: anc) h.2).html .firstChild
+    obtain ⟨f1, f2⟩ := section_facts
+    simp only [expand, viewOf]
+    refine Rel.single ?_ rfl
+    intro pos
+    have : innerBuf ([] : List Attr) = [] := rfl
+    simp [expHtml, nodeHtml, f1, f2, this, ihk]
+theorem rel_viewKids : (ts : List Tmpl) → ∀ (top : Bool) (anc : List Str), wfTs false anc ts = true →
+    Rel (expandKids top ts) (viewKids true top ts)
+  | [], _, _, _ => by simp only [expandKids, viewKids]; exact Rel.nil
+  | t :: ts, top, anc, h => by
+    simp only [wfTs, Bool.and_eq_true] at h
+    simp only [expandKids, viewKids]
+    exact (rel_view t top anc h.1).append (rel_viewKids ts top anc h.2)
+end
+
+/-- `view!{…}.to_html()` prints what tachys prints for the mixed view -/
+theorem macroHtml_eq (ts : List Tmpl) (h : wfTs false [[]] ts = true) :
+    macroHtml ts = toHtml (viewKids true true ts) := by
+  unfold macroHtml toHtml
+  exact (rel_viewKids ts true [[]] h).html .firstChild
+
+
+/-! ### the finding classes lie outside the well-formedness hypothesis -/
+
+def Seen.bad (s : Seen) : Bool := s.noscriptInert || s.rawMarker || s.classWs || s.emptyText
+
+theorem generic_not_raw {tag : Str} (hg : genericOK tag = true) : tag ≠ tNoscript ∧ tag ≠ tTitle := by
+  simp only [genericOK, Bool.and_eq_true, decide_eq_true_eq] at hg
+  have hk := hg.1.1.1.1
+  constructor <;> (intro e; subst e; revert hk; decide)
+
+mutual
+theorem noNoscriptText : (t : Tmpl) → ∀ (ae : Bool) (anc : List Str), wfT ae anc t = true → hasNoscriptText t = false
+  | .text _, _, _, _ => rfl
+  | .block _, _, _, _ => rfl
+  | .frag _, _, _, _ => rfl
+  | .comp _, _, _, _ => rfl
+  | .elem tag attrs kids, ae, anc, h => by
+    simp only [wfT, Bool.and_eq_true, Bool.or_eq_true] at h
+    obtain ⟨_, hcase⟩ := h
+    rcases hcase with ((⟨hg, hkids⟩ | ⟨hv, hempty⟩) | ⟨hraw, hempty⟩) | ⟨htitle, htk⟩
+    · simp [hasNoscriptText, (generic_not_raw hg).1, noNoscriptTextKids kids ae _ hkids]
+    · have hk : kids = [] := by cases kids <;> simp_all
+      subst hk; simp [hasNoscriptText, hasNoscriptTextKids]
+    · have hk : kids = [] := by cases kids <;> simp_all
+      subst hk; simp [hasNoscriptText, hasNoscriptTextKids]
+    · simp only [decide_eq_true_eq] at htitle
+      subst htitle
+      have : tTitle ≠ tNoscript := by decide
+      simp [hasNoscriptText, this, noNoscriptTextKids kids ae (tTitle :: anc) (title_wfTs htk ae _)]
+theorem noNoscriptTextKids : (ts : List Tmpl) → ∀ (ae : Bool) (anc : List Str), wfTs ae anc ts = true →
+    hasNoscriptTextKids ts = false
+  | [], _, _, _ => rfl
+  | t :: ts, ae, anc, h => by
+    simp only [wfTs, Bool.and_eq_true] at h
+    simp [hasNoscriptTextKids, noNoscriptText t ae anc h.1, noNoscriptTextKids ts ae anc h.2]
+end
+
+theorem classWs_ok (tag : Str) (attrs : List TAttr) (kids : List Tmpl) (h : tattrsOK attrs = true) :
+    (Seen.belem tag attrs kids).classWs = false := by
+  simp only [tattrsOK, Bool.and_eq_true] at h
+  have hok := h.1.1.1
+  simp only [Seen.classWs, Bool.not_eq_false', List.all_eq_true, List.mem_flatMap]
+  rintro s ⟨a, ha, hs⟩
+  have := List.all_eq_true.mp hok a ha
+  cases a <;> simp_all [attrClassStrings, tattrOK]
+
+mutual
+theorem seen_ok : (t : Tmpl) → ∀ (top : Bool) (anc : List Str), wfT false anc t = true →
+    (seenNode top true t).all (fun s => !s.bad) = true
+  | .text s, _, _, h => by
+    simp only [wfT, Bool.and_eq_true, Bool.false_or, bne_iff_ne, ne_eq] at h
+    cases s with
+    | nil => exact absurd rfl h.2
+    | cons c cs => simp [seenNode, Seen.bad, Seen.noscriptInert, Seen.rawMarker, Seen.classWs, Seen.emptyText]
+  | .block s, _, _, h => by
+    simp only [wfT, Bool.and_eq_true, Bool.false_or, bne_iff_ne, ne_eq] at h
+    cases s with
+    | nil => exact absurd rfl h.2
+    | cons c cs => simp [seenNode, Seen.bad, Seen.noscriptInert, Seen.rawMarker, Seen.classWs, Seen.emptyText]
+  | .elem tag attrs kids, top, anc, h => by
+    by_cases hb : (!top && isInert (.elem tag attrs kids)) = true
+    · have := noNoscriptText _ false anc h
+      simp [seenNode, hb, Seen.bad, Seen.noscriptInert, Seen.rawMarker, Seen.classWs, Seen.emptyText, this]
+    · have hw := h
+      simp only [wfT, Bool.and_eq_true, Bool.or_eq_true] at h
+      obtain ⟨⟨hattrs, _⟩, hcase⟩ := h
+      have hc := classWs_ok tag attrs kids hattrs
+      have key : ∀ (hm : ((!escapeChildren tag || decide (tag = tTitle)) && adjacentTexts kids) = false)
+          (body : macroIsVoid tag = false → (seenKids false (escapeChildren tag) kids).all (fun s => !s.bad) = true),
+          (seenNode top true (.elem tag attrs kids)).all (fun s => !s.bad) = true := by
+        intro hm body
+        simp only [seenNode, hb, if_false, List.all_cons, Bool.and_eq_true, Bool.false_eq_true]
+        refine ⟨by simp [Seen.bad, Seen.noscriptInert, Seen.rawMarker, Seen.emptyText, hc, hm], ?_⟩
+        cases hv : macroIsVoid tag
+        · simpa using body hv
+        · simp
+      rcases hcase with ((⟨hg, hkids⟩ | ⟨hv, hempty⟩) | ⟨hraw, hempty⟩) | ⟨htitle, htk⟩
+      · obtain ⟨f1, f2, f3, f4⟩ := generic_facts hg
+        exact key (by simp [f2, (generic_not_raw hg).2]) (fun _ => by rw [f2]; exact seen_ok_kids kids false (tag :: anc) hkids)
+      · have hk : kids = [] := by cases kids <;> simp_all
+        subst hk
+        exact key (by simp [adjacentTexts]) (fun _ => by simp [seenKids])
+      · have hk : kids = [] := by cases kids <;> simp_all
+        subst hk
+        exact key (by simp [adjacentTexts]) (fun _ => by simp [seenKids])
+      · simp only [decide_eq_true_eq] at htitle
+        subst htitle
+        obtain ⟨f1, f2, f3, f4, _⟩ := title_facts
+        obtain ⟨s, hk, _, _⟩ := titleKidsT_cases htk
+        exact key (by rcases hk with rfl | rfl <;> simp [adjacentTexts])
+          (fun _ => by rw [f2]; exact seen_ok_kids kids false (tTitle :: anc) (title_wfTs htk false (tTitle :: anc)))
+  | .frag kids, top, anc, h => by
+    simp only [wfT] at h
+    simpa [seenNode] using seen_ok_kids kids true anc h
+  | .comp kids, top, anc, h => by
+    simp only [wfT, Bool.and_eq_true] at h
+    have ih := seen_ok_kids kids true _ h.2
+    have e : escapeChildren sSection = true := by decide
+    have t : sSection ≠ tTitle := by decide
+    have hd : (Seen.belem sSection [] kids).bad = false := by
+      simp [Seen.bad, Seen.noscriptInert, Seen.rawMarker, Seen.classWs, Seen.emptyText, e, t]
+    simp only [seenNode, List.all_cons, Bool.and_eq_true, hd, Bool.not_false, true_and]
+    exact ih
+theorem seen_ok_kids : (ts : List Tmpl) → ∀ (top : Bool) (anc : List Str), wfTs false anc ts = true →
+    (seenKids top true ts).all (fun s => !s.bad) = true
+  | [], _, _, _ => by simp [seenKids]
+  | t :: ts, top, anc, h => by
+    simp only [wfTs, Bool.and_eq_true] at h
+    simp only [seenKids, List.all_append, Bool.and_eq_true]
+    exact ⟨seen_ok t top anc h.1, seen_ok_kids ts top anc h.2⟩
+end
+
 end Leptos.Macro
